@@ -31,3 +31,37 @@ INBOUND_XFR = [
     "with dns.xfr.Inbound(txn_manager, __rdtype, serial, __is_udp) as __inbound:\n    __done = False\n    __tsig_ctx = None\n    ...",
     "__r = dns.message.from_wire(...)",
 ]
+
+
+# Applied by engine.model.Model to the functions themselves (in place), so every rule sees role names whichever way it reaches the function.
+ROLES = {
+    "dns.message._WireReader._get_section": GET_SECTION,
+    "dns.message.Message.to_wire": MESSAGE_TO_WIRE,
+    "dns.query._inbound_xfr": INBOUND_XFR,
+    "dns.asyncquery._inbound_xfr": INBOUND_XFR,
+    "dns.rdata.get_rdata_class": [
+        "__cls = _rdata_classes.get((rdclass, rdtype))", "__rdclass_text = dns.rdataclass.to_text(rdclass)", "__rdtype_text = dns.rdatatype.to_text(rdtype)",
+        "__mod = import_module(...)"],
+    "dns.rdtypes.ANY.AMTRELAY.AMTRELAY._to_wire": ["__relay_type = self.relay_type | ..."],
+    "dns.rdtypes.ANY.AMTRELAY.AMTRELAY.from_wire_parser": ["(__precedence, __relay_type) = parser.get_struct('!BB')"],
+    "dns.rdtypes.IN.APL.APL.from_wire_parser": ["__header = parser.get_struct('!HBB')\n__afdlen = __header[2]"],
+    "dns.rdtypes.IN.APL.APLItem.to_wire": ["__address = __address[0:__last]\n__l = len(__address)", "__header = struct.pack('!HBB', self.family, self.prefix, __l)"],
+    "dns.rdtypes.IN.APL.APL._to_wire": ["for __item in self.items:"],
+    "dns.rdtypes.svcbbase.SVCBBase.from_wire_parser": ["__pcls = _class_for_key.get(__pkey, GenericParam)"],
+    "dns.wirebase.Parser.get_bytes": ["__output = self.wire[self.current:self.current + size]"],
+    "dns.wirebase.Parser.restrict_to": ["__saved_end = self.end"],
+    "dns.rdata.Rdata.__eq__": ["__our_relative = False\n__their_relative = False", "__our = self.to_digestable()", "__their = other.to_digestable()"],
+    "dns.rdata.Rdata._cmp": ["__our = b''\n__their = b''", "__our = self.to_digestable()\n__our_relative = False", "__their = other.to_digestable()\n__their_relative = False"],
+    "dns.rdataset.Rdataset.add": ["__covers = rd.covers()"],
+    "dns.btreezone.WritableVersion.__init__": ["__version = zone._versions[-1]"],
+    "dns.btreezone.WritableVersion.delete_rdataset": ["(__node, name) = self._maybe_cow_with_name(name)"],
+    "dns.zone.WritableVersion.delete_rdataset": ["(__node, name) = self._maybe_cow_with_name(name)"],
+    "dns.zone.WritableVersion._maybe_cow_with_name": ["__node = self.nodes.get(name)", "__new_node = self.zone.node_factory()"],
+    "dns.btreezone.ImmutableVersion.__init__": ["for __name in version.changed:\n    __node = version.nodes.get(__name)\n    ..."],
+    "dns.zone.ImmutableVersion.__init__": ["for __name in version.changed:\n    __node = version.nodes.get(__name)\n    ..."],
+    "dns.versioned.Zone._get_next_version_id": ["__id = self._versions[-1].id + 1"],
+    "dns.versioned.Zone._prune_versions_unlocked": ["__least_kept = self._versions[-1].id", "__least_kept = min((cast(ImmutableVersion, __txn.version).id for __txn in self._readers))"],
+    "dns.versioned.Zone.reader": ["__version = self._versions[-1]", "__txn = Transaction(self, False, __version)"],
+    "dns.zone.Transaction._end_transaction": ["__factory = self.manager.immutable_version_factory", "__version = __factory(self.version)"],
+    "dns.versioned.Zone.writer": ["__event = None", "__event = threading.Event()"],
+}
